@@ -326,7 +326,13 @@ class datetime(_dt, FieldType):
         return self
 
     def __str__(self):
-        return self.astimezone(DISPLAY_TZINFO).isoformat(" ") if DISPLAY_TZINFO else self.isoformat(" ")
+        if DISPLAY_TZINFO:
+            try:
+                return self.astimezone(DISPLAY_TZINFO).isoformat(" ")
+            except OverflowError:
+                # The instant is not representable in the display timezone (outside of year 1..9999), print as is
+                pass
+        return self.isoformat(" ")
 
     def __repr__(self):
         return str(self)
